@@ -430,6 +430,7 @@ class HyperparameterRangeCategoricalNonBinary(HyperparameterRangeCategorical):
         active_choices: Tuple[Any, ...] = None,
     ):
         super().__init__(name, choices)
+        self._active_positions = None
         if active_choices is None:
             if self.num_choices > 1:
                 self._ndarray_bounds = [(0.0, 1.0)] * self.num_choices
@@ -438,6 +439,9 @@ class HyperparameterRangeCategoricalNonBinary(HyperparameterRangeCategorical):
         else:
             self._assert_choices(active_choices)
             _active_choices = set(active_choices)
+            self._active_positions = [
+                pos for pos, val in enumerate(self.choices) if val in _active_choices
+            ]
             num_active_choices = len(active_choices)
             self._ndarray_bounds = [(0.0, 0.0)] * self.num_choices
             num = 0
@@ -464,7 +468,16 @@ class HyperparameterRangeCategoricalNonBinary(HyperparameterRangeCategorical):
 
     def from_ndarray(self, cand_ndarray: np.ndarray) -> Hyperparameter:
         assert len(cand_ndarray) == self.num_choices, (cand_ndarray, self)
-        return self.choices[int(np.argmax(cand_ndarray))]
+        pos = int(np.argmax(cand_ndarray))
+        if self._active_positions is not None and pos not in self._active_positions:
+            # Ties are broken in favour of active choices. Otherwise, a vector
+            # inside ``get_ndarray_bounds`` whose active entries are all 0 would
+            # be decoded to an inactive choice
+            values = np.asarray(cand_ndarray).reshape((-1,))
+            ties = [p for p in self._active_positions if values[p] == values[pos]]
+            if ties:
+                pos = ties[0]
+        return self.choices[pos]
 
     def get_ndarray_bounds(self) -> List[Tuple[float, float]]:
         return self._ndarray_bounds
